@@ -20,8 +20,30 @@ import random
 from harness import core, lib_units
 from harness.core import to_dec, to_dec2
 
-NUMS = [1.0, 3.7, -40.0, 2, 0, 0.0, -0.0]      # zero (int, float, negative zero) is a value, not 'omitted'
-TEMP_NUMS = [1.0, 3.7, -40.0, 0.0, 273.15]
+# numeric arguments are [class, value] so that a case stays JSON-able: f float, i python int,
+# npf64 / npi64 / npi32 numpy scalars.  Zero (int, float, negative zero) is a value, not 'omitted';
+# 1e200 / 1e-200 are the huge / tiny ends (far from overflow for every factor ratio <= 1e26).
+NUMS = [['f', 1.0], ['f', 3.7], ['f', -40.0], ['i', 2], ['i', 0], ['f', 0.0], ['f', -0.0],
+        ['i', -7], ['i', 10 ** 15], ['npf64', 2.5], ['npf64', 0.0], ['npi64', 3], ['npi64', 0],
+        ['npi32', -7], ['f', 1e200], ['f', -1e200], ['f', 1e-200]]
+TEMP_NUMS = [['f', 1.0], ['f', 3.7], ['f', -40.0], ['f', 0.0], ['f', 273.15], ['f', -273.15],
+             ['i', 25], ['i', 0], ['i', -40], ['npf64', 298.15], ['npi64', 300], ['npi32', 0],
+             ['f', -0.0], ['f', 1e200], ['f', 1e-200]]
+PIDX = 1            # index (0-based) of the argument that is also passed positionally (3.7)
+
+
+def _arg(spec):
+    import numpy as np
+    k, v = spec
+    return {'f': float, 'i': int, 'npf64': np.float64, 'npi64': np.int64, 'npi32': np.int32}[k](v)
+
+
+def _argclass(spec):
+    k, v = spec
+    mag = 'zero' if float(v) == 0 else ('huge' if abs(float(v)) >= 1e100 else
+                                        ('tiny' if abs(float(v)) <= 1e-100 else
+                                         ('neg' if float(v) < 0 else 'pos')))
+    return k + ':' + mag
 MACHINERY_CLAUSES = ('MachineryWitness', 'MachineryOrder', 'MachinerySymbol', 'MachineryNoZeroProbe', 'UnknownEvent',
                      'UnknownAccessor')
 ACCESSORS = [('P0', 'pressure', None), ('T0', 'temp', None), ('V0', 'volume', None),
@@ -78,24 +100,28 @@ def _exec_row(case):
     from pmutt import constants as c
     u = case['u']
     td = c.type_dict
-    vs, vtypes, refused, mism = [], [], [], []
+    vs, vtypes, mism = [], [], []
+    variants = ['one', 'omitted', 'zero']          # num = 1.0, num not given, num = 0
+    refused = [[], [], []]
     for cell in case['row']:
         v = cell['v']
-        ok, d, exc = _conv(c, 1.0, u, v)
         vs.append(v)
         vtypes.append(td.get(v, ''))
-        refused.append(not ok)
-        if 'expect' in cell:
-            got = 'ok' if ok else 'refused'
-            if got != cell['expect']:
-                mism.append({'clause': 'ReplayOutcome', 'u': u, 'v': v, 'expected': cell['expect'],
-                             'got': got, 'exception': exc})
-            elif ok and cell.get('has10'):
-                if _norm(d) != [1, cell['p10']]:
-                    mism.append({'clause': 'ReplayFactor', 'u': u, 'v': v,
-                                 'expected': [1, cell['p10']], 'got': _norm(d)})
+        for k, num in enumerate((1.0, None, 0)):
+            ok, d, exc = _conv(c, num, u, v)
+            refused[k].append(not ok)
+            if 'expect' in cell:
+                got = 'ok' if ok else 'refused'
+                if got != cell['expect']:
+                    mism.append({'clause': 'ReplayOutcome', 'u': u, 'v': v, 'num': variants[k],
+                                 'expected': cell['expect'], 'got': got, 'exception': exc})
+                elif ok and cell.get('has10') and k < 2:
+                    # both num = 1.0 and an omitted num give the factor itself
+                    if _norm(d) != [1, cell['p10']]:
+                        mism.append({'clause': 'ReplayFactor', 'u': u, 'v': v, 'num': variants[k],
+                                     'expected': [1, cell['p10']], 'got': _norm(d)})
     ev = {'ev': 'cross', 'u': u, 'utype': td.get(u, ''), 'vs': vs, 'vtypes': vtypes,
-          'refused': refused}
+          'variants': variants, 'refused': refused}
     return [ev], mism
 
 
@@ -103,15 +129,18 @@ def _exec_temps(case):
     """Exact temperature fixed points computed by TLC (hundredths)."""
     from pmutt import constants as c
     mism = []
+    import numpy as np
     for t in case['cases']:
-        ok, d, exc = _conv(c, float(t['x']), t['u'], t['v'])
         exp = _norm([t['y100'], -2])
-        if not ok:
-            mism.append({'clause': 'ReplayOutcome', 'u': t['u'], 'v': t['v'], 'x': t['x'],
-                         'expected': 'ok', 'got': 'refused', 'exception': exc})
-        elif _norm(d) != exp:
-            mism.append({'clause': 'ReplayTemperature', 'u': t['u'], 'v': t['v'], 'x': t['x'],
-                         'expected': exp, 'got': _norm(d)})
+        # the integer point as float, python int and numpy integer
+        for form, x in (('float', float(t['x'])), ('int', int(t['x'])), ('npi64', np.int64(t['x']))):
+            ok, d, exc = _conv(c, x, t['u'], t['v'])
+            if not ok:
+                mism.append({'clause': 'ReplayOutcome', 'u': t['u'], 'v': t['v'], 'x': t['x'],
+                             'form': form, 'expected': 'ok', 'got': 'refused', 'exception': exc})
+            elif _norm(d) != exp:
+                mism.append({'clause': 'ReplayTemperature', 'u': t['u'], 'v': t['v'], 'x': t['x'],
+                             'form': form, 'expected': exp, 'got': _norm(d)})
     return [], mism
 
 
@@ -121,16 +150,32 @@ def _exec_matrix(case):
     t = case['type']
     units = [u for u, ty in c.type_dict.items() if ty == t]
     n = len(units)
+    specs = case['nums']
+    nums = [_arg(x) for x in specs]
+    classes = {}
+    ok = [[True] * n for _ in range(n)]
+    vp = [[None] * n for _ in range(n)]
+    v = [[[None] * len(nums) for _ in range(n)] for _ in range(n)]
+
+    def seen(k, o):
+        if o:
+            cl = _argclass(specs[k])
+            classes[cl] = classes.get(cl, 0) + 1
+
+    for i, a in enumerate(units):
+        for j, b in enumerate(units):
+            o, val = _call(c.convert_unit, nums[PIDX], a, b)          # positional form
+            d = _num(val) if o else None
+            ok[i][j] = ok[i][j] and d is not None
+            vp[i][j] = d or [0, 0]
     if t == 'temp':
-        nums = case['nums']
-        ok = [[True] * n for _ in range(n)]
-        v = [[[None] * len(nums) for _ in range(n)] for _ in range(n)]
         rt = [[[None] * len(nums) for _ in range(n)] for _ in range(n)]
         via = [[[[None] * len(nums) for _ in range(n)] for _ in range(n)] for _ in range(n)]
         for i, a in enumerate(units):
             for j, b in enumerate(units):
                 for k, x in enumerate(nums):
                     o1, d1, _ = _conv(c, x, a, b)
+                    seen(k, o1)
                     raw = c.convert_unit(num=x, initial=a, final=b) if o1 else 0.0
                     o2, d2, _ = _conv(c, raw, b, a)
                     ok[i][j] = ok[i][j] and o1 and o2
@@ -139,24 +184,23 @@ def _exec_matrix(case):
                         o3, d3, _ = _conv(c, raw, b, w)
                         ok[i][j] = ok[i][j] and o3
                         via[i][j][m][k] = d3
-        ev = {'ev': 'temp', 'type': t, 'units': units, 'nums': [to_dec(x) for x in nums],
-              'ok': ok, 'v': v, 'rt': rt, 'via': via}
+        ev = {'ev': 'temp', 'type': t, 'units': units, 'nums': [to_dec(float(x)) for x in nums],
+              'ok': ok, 'v': v, 'rt': rt, 'via': via, 'vp': vp, 'pidx': PIDX + 1,
+              'classes': classes}
         return [ev], []
-    nums = case['nums']
-    ok = [[True] * n for _ in range(n)]
     f = [[None] * n for _ in range(n)]
-    v = [[[None] * len(nums) for _ in range(n)] for _ in range(n)]
     for i, a in enumerate(units):
         for j, b in enumerate(units):
             o, d, _ = _conv(c, None, a, b)          # num omitted: "the conversion factor"
-            ok[i][j] = o
+            ok[i][j] = ok[i][j] and o
             f[i][j] = d
             for k, x in enumerate(nums):
                 o, d, _ = _conv(c, x, a, b)
+                seen(k, o)
                 ok[i][j] = ok[i][j] and o
                 v[i][j][k] = d
-    ev = {'ev': 'matrix', 'type': t, 'units': units, 'nums': [to_dec(x) for x in nums],
-          'ok': ok, 'f': f, 'v': v}
+    ev = {'ev': 'matrix', 'type': t, 'units': units, 'nums': [to_dec(float(x)) for x in nums],
+          'ok': ok, 'f': f, 'v': v, 'vp': vp, 'pidx': PIDX + 1, 'classes': classes}
     return [ev], []
 
 
@@ -249,6 +293,11 @@ def _exec_tables(case):
                     'accepted': acc_ok, 'g': g, 'gok': gok,
                     'lits': _lits(lits['unit'].get(name, []))})
     evs.append({'ev': 'const', 'name': 'Na', 'val': to_dec(c.Na), 'lits': _lits(lits['Na'])})
+    # every other module-level numeric constant of constants.py (today: e, the elementary charge)
+    for cname, cl in sorted(lits['module'].items()):
+        if cname != 'Na' and isinstance(getattr(c, cname, None), (int, float)):
+            evs.append({'ev': 'const', 'name': cname, 'val': to_dec(getattr(c, cname)),
+                        'lits': _lits(cl)})
 
     def table(ev, fn, first, tab, extra=None):
         docmap = dict(lib_units.doc_values(fn.__doc__))
@@ -260,16 +309,22 @@ def _exec_tables(case):
             seen.add(key)
             ok, val = _call(fn, key)
             d = _num(val) if ok else None
+            okk, valk = _call(fn, units=key)                      # keyword form
             e = {'ev': ev, 'key': key, 'codes': core.text_codes(key), 'raised': d is None,
-                 'val': d or [0, 0], 'lits': _lits(tab.get(key, [])), 'tab': key in tab}
+                 'val': d or [0, 0], 'kwval': (_num(valk) if okk else None) or [0, 0],
+                 'lits': _lits(tab.get(key, [])), 'tab': key in tab}
             e.update(_doc_fields(docmap, key))
             if extra:
                 e.update(extra(key))
             evs.append(e)
 
     def hbar(key):
-        ok, val = _call(c.h, key, bar=True)
-        return {'bar': (_num(val) if ok else None) or [0, 0]}
+        out = {}
+        for field, args, kw in (('bar', (key,), {'bar': True}), ('barF', (key,), {'bar': False}),
+                                ('barpos', (key, True), {})):
+            ok, val = _call(c.h, *args, **kw)
+            out[field] = (_num(val) if ok else None) or [0, 0]
+        return out
 
     table('R', c.R, 'J/mol/K', lits['R'])
     table('kb', c.kb, 'J/K', lits['kb'])
@@ -290,8 +345,10 @@ def _exec_tables(case):
         for key in keys:
             ok, val = _call(fn, key)
             d = _num(val) if ok else None
+            okk, valk = _call(fn, units=key)
             e = {'ev': 'acc', 'fn': fname, 'qtype': qtype, 'key': key, 'raised': d is None,
-                 'val': d or [0, 0], 'lits': _lits(lits['num'].get(fname, [])),
+                 'val': d or [0, 0], 'kwval': (_num(valk) if okk else None) or [0, 0],
+                 'lits': _lits(lits['num'].get(fname, [])),
                  'ref': ref or '', 'refval': refval}
             e.update(_doc_fields(docmap, key))
             evs.append(e)
@@ -301,7 +358,19 @@ def _exec_tables(case):
 SPEC_FN = ['energy', 'freq', 'temp', 'wavenumber']
 
 
+HELPERS = [('energy_to_freq', 0), ('energy_to_temp', 0), ('energy_to_wavenumber', 0),
+           ('freq_to_energy', 1), ('freq_to_temp', 1), ('freq_to_wavenumber', 1),
+           ('temp_to_energy', 2), ('temp_to_freq', 2), ('temp_to_wavenumber', 2),
+           ('wavenumber_to_energy', 3), ('wavenumber_to_freq', 3), ('wavenumber_to_temp', 3),
+           ('wavenumber_to_inertia', 3), ('inertia_to_temp', 4), ('debye_to_einstein', 2),
+           ('einstein_to_debye', 2)]
+HELPER_BASE = {'f64': [1.6e-20, 2.42e13, 1160.0, 810.0, 7.2e-46],
+               'i64': [1, 24200000000000, 1160, 810, 2],
+               'list': [1.6e-20, 2.42e13, 1160.0, 810.0, 7.2e-46]}
+
+
 def _exec_spectro(case):
+    import numpy as np
     from pmutt import constants as c
 
     def fn(a, b):
@@ -309,7 +378,8 @@ def _exec_spectro(case):
 
     evs = []
     cons = {'h': to_dec(c.h('J s')), 'kb': to_dec(c.kb('J/K')), 'c': to_dec(c.c('cm/s'))}
-    for xs in case['spec']:
+    for specs in case['spec']:
+        xs = [_arg(x) for x in specs]
         g = [[None] * 4 for _ in range(4)]
         g3 = [[None] * 4 for _ in range(4)]
         rt = [[None] * 4 for _ in range(4)]
@@ -325,19 +395,45 @@ def _exec_spectro(case):
                 rt[a][b] = to_dec(raw[a][b] if a == b else fn(b, a)(raw[a][b]))
                 for k in range(4):
                     via[a][b][k] = to_dec(raw[a][b] if b == k else fn(b, k)(raw[a][b]))
-        e = {'ev': 'spec', 'xs': [to_dec(x) for x in xs], 'g': g, 'g3': g3, 'rt': rt, 'via': via}
+        e = {'ev': 'spec', 'xs': [to_dec(x) for x in xs], 'g': g, 'g3': g3, 'rt': rt, 'via': via,
+             'cls': _argclass(specs[3])}
         e.update(cons)
         evs.append(e)
-    for w in case['inertia']:
+    for spec in case['inertia']:
+        w = _arg(spec)
         inertia = c.wavenumber_to_inertia(w)
         e = {'ev': 'inertia', 'w': to_dec(w), 'inertia': to_dec(inertia),
-             'th': to_dec(c.inertia_to_temp(inertia)), 'thw': to_dec(c.wavenumber_to_temp(w))}
+             'th': to_dec(c.inertia_to_temp(inertia)), 'thw': to_dec(c.wavenumber_to_temp(w)),
+             'cls': _argclass(spec)}
         e.update(cons)
         evs.append(e)
-    for d in case['debye']:
+    for spec in case['debye']:
+        d = _arg(spec)
         ein = c.debye_to_einstein(d)
         evs.append({'ev': 'debye', 'd': to_dec(d), 'e': to_dec(ein),
-                    'back': to_dec(c.einstein_to_debye(ein))})
+                    'back': to_dec(c.einstein_to_debye(ein)), 'cls': _argclass(spec)})
+    # every helper with an array-valued argument (statmech passes arrays of wavenumbers)
+    for name, q in case.get('helpers', []):
+        f = getattr(c, name)
+        for kind in ('f64', 'i64', 'list'):
+            b = HELPER_BASE[kind][q]
+            vals = [b, 2 * b, 3 * b]
+            X = list(vals) if kind == 'list' else np.array(vals, dtype=np.float64 if kind == 'f64' else np.int64)
+
+            def snap(obj):
+                return [to_dec2(float(v)) for v in np.ravel(np.asarray(obj, dtype=float))]
+
+            e = {'ev': 'helper', 'fn': name, 'kind': kind, 'x': [to_dec2(float(v)) for v in vals],
+                 'raised': False, 'y': [], 's': []}
+            ok, y = _call(f, X)
+            e['after'] = snap(X)
+            if ok:
+                e['y'] = snap(y)
+                e['s'] = [to_dec2(f(v)) for v in vals]
+            else:
+                e['raised'] = True
+                e['exception'] = y
+            evs.append(e)
     return evs, []
 
 
@@ -350,29 +446,52 @@ def _exec_elements(case):
             return {'has': True, 'v': to_dec2(tab[key])}
         return {'has': False, 'v': [0, 0, 0]}
 
+    import numpy as np
     evs = [{'ev': 'reset'}]
     mism = []
     sym_of = {}
+
+    def pick(tab, syms):
+        for sy in syms:
+            if sy in tab:
+                return sy
+        return syms[0]
+
     for el in case['elements']:
-        z, sym = el['z'], el['sym']
+        z, syms = el['z'], el['syms']
+        sym = pick(c.atomic_weight, syms)
+        symS = pick(c.S_elements, syms)
         sym_of[z] = sym
-        evs.append({'ev': 'element', 'z': z, 'sym': sym,
+        evs.append({'ev': 'element', 'z': z, 'sym': sym, 'symS': symS,
                     'awZ': look(c.atomic_weight, z), 'awS': look(c.atomic_weight, sym),
-                    'sZ': look(c.S_elements, z), 'sS': look(c.S_elements, sym)})
+                    'sZ': look(c.S_elements, z), 'sS': look(c.S_elements, symS)})
+
+    def count(item):
+        n = item[1]
+        k = item[2] if len(item) > 2 else ''
+        return np.int64(n) if k == 'npi64' else (np.float64(n) if k == 'npf64' else n)
+
     for comp in case['comps']:
         kind = comp['kind']
-        items = comp['items']                       # [[z, n], ...]
+        items = comp['items']                       # [[z, n(, numpy class of n)], ...]
         if kind == 'formula':
-            arg = ''.join('%s%s' % (sym_of[z], '' if n == 1 else int(n)) for z, n in items)
+            arg = ''.join('%s%s' % (sym_of[it[0]], '' if it[1] == 1 else int(it[1])) for it in items)
         else:
             arg = {}
-            for k, (z, n) in enumerate(items):
-                key = sym_of[z] if kind == 'sym' or (kind == 'mixed' and k % 2) else z
-                arg[key] = arg.get(key, 0) + n
+            for k, it in enumerate(items):
+                z = it[0]
+                if kind == 'sym' or (kind == 'mixed' and k % 2):
+                    key = sym_of[z]
+                elif kind == 'npnum':
+                    key = np.int64(z)
+                else:
+                    key = z
+                arg[key] = arg.get(key, 0) + count(it)
         ok, val = _call(pmutt.get_molecular_weight, arg)
         d = _num(val) if ok else None
-        evs.append({'ev': 'mw', 'kind': kind, 'arg': json.dumps(arg) if isinstance(arg, dict) else arg,
-                    'comp': [[z, to_dec(n)] for z, n in items], 'raised': d is None,
+        evs.append({'ev': 'mw', 'kind': kind, 'cls': comp.get('cls', 'random'),
+                    'arg': arg if isinstance(arg, str) else repr(arg)[:200],
+                    'comp': [[it[0], to_dec(float(it[1]))] for it in items], 'raised': d is None,
                     'val': d or [0, 0]})
     return evs, mism
 
@@ -422,46 +541,75 @@ def _build_cases(ctx, gen):
     extra = ctx.pick(2, 40)
     for t in sorted(set(c.type_dict.values())):
         if t == 'temp':
-            nums = TEMP_NUMS + [round(rnd.uniform(-500, 3000), 2) for _ in range(extra)]
+            nums = TEMP_NUMS + [['f', round(rnd.uniform(-500, 3000), 2)] for _ in range(extra)]
         else:
-            nums = NUMS + [round(_loguniform(rnd, 1e-6, 1e6), 6) * rnd.choice([1, -1])
+            nums = NUMS + [['f', round(_loguniform(rnd, 1e-6, 1e6), 6) * rnd.choice([1, -1])]
                            for _ in range(extra)]
         cases.append({'kind': 'matrix', 'type': t, 'nums': nums})
-    # array-valued arguments: quick = every unit with its two cyclic successors (both directions),
-    # thorough = every ordered pair with a third unit
+    # array-valued arguments: every ordered pair of every type with a third unit, in every run
     for t in sorted(set(c.type_dict.values())):
         us = [u for u, ty in c.type_dict.items() if ty == t]
         n = len(us)
         triples = []
-        if ctx.quick:
-            for i in range(n):
-                triples.append([us[i], us[(i + 1) % n], us[(i + 2) % n]])
-                triples.append([us[(i + 1) % n], us[i], us[(i + n - 1) % n]])
-        else:
-            for i in range(n):
-                for j in range(n):
-                    if i != j:
-                        triples.append([us[i], us[j], us[(j + 1 + (1 if (j + 1) % n == i else 0)) % n]])
+        for i in range(n):
+            for j in range(n):
+                if i != j:
+                    triples.append([us[i], us[j], us[(j + 1 + (1 if (j + 1) % n == i else 0)) % n]])
         cases.append({'kind': 'array', 'type': t, 'triples': triples})
     si = {}
     for t in gen['types']:
         si[t['type']] = t['si']
     cases.append({'kind': 'tables', 'si': si})
     nsp = ctx.pick(12, 1600)
+    base = [1.6e-20, 2.42e13, 1160.0, 810.0]
+    ibase = [1, 24200000000000, 1160, 810]
+    # one deterministic sample of every argument class (float, int, numpy scalars, negative, zero,
+    # huge, tiny), then seeded random positive floats
+    class_spec = [[['f', v] for v in base], [['i', v] for v in ibase],
+                  [['npf64', v] for v in base], [['npi64', v] for v in ibase],
+                  [['npi32', v] for v in [1, 2000000000, 1160, 810]],
+                  [['f', -v] for v in base], [['i', -v] for v in ibase],
+                  [['f', 0.0]] * 4, [['i', 0]] * 4, [['npf64', 0.0]] * 4,
+                  [['f', 1e150]] * 4, [['f', 1e-150]] * 4]
+    class_one = [['f', 810.0], ['i', 810], ['npf64', 2.5], ['npi64', 3], ['npi32', 7], ['f', -3.5],
+                 ['i', -2], ['f', 1e100], ['f', 1e-100]]
     for k in range(ctx.pick(4, 16)):
-        spec = [[1.6e-20, 2.42e13, 1160.0, 810.0]] if k == 0 else []
+        spec = list(class_spec) if k == 0 else []
         for _ in range(nsp // ctx.pick(4, 16)):
-            spec.append([_loguniform(rnd, 1e-23, 1e-18), _loguniform(rnd, 1e10, 1e15),
-                         _loguniform(rnd, 1.0, 1e4), _loguniform(rnd, 1.0, 5e3)])
-        cases.append({'kind': 'spectro', 'spec': spec,
-                      'inertia': [_loguniform(rnd, 0.05, 200.0) for _ in range(nsp // ctx.pick(4, 16))],
-                      'debye': [_loguniform(rnd, 20.0, 2000.0) for _ in range(nsp // ctx.pick(4, 16))]})
+            spec.append([['f', _loguniform(rnd, 1e-23, 1e-18)], ['f', _loguniform(rnd, 1e10, 1e15)],
+                         ['f', _loguniform(rnd, 1.0, 1e4)], ['f', _loguniform(rnd, 1.0, 5e3)]])
+        cs = {'kind': 'spectro', 'spec': spec,
+              'inertia': (list(class_one) if k == 0 else []) +
+              [['f', _loguniform(rnd, 0.05, 200.0)] for _ in range(nsp // ctx.pick(4, 16))],
+              'debye': (list(class_one) + [['f', 0.0], ['i', 0]] if k == 0 else []) +
+              [['f', _loguniform(rnd, 20.0, 2000.0)] for _ in range(nsp // ctx.pick(4, 16))]}
+        if k == 0:
+            cs['helpers'] = [list(hq) for hq in HELPERS]
+        cases.append(cs)
     elements = sorted(gen['elements'], key=lambda e: e['z'])
     weighted = [e['z'] for e in elements if e['z'] in c.atomic_weight]
+    # deterministic part: every element alone, by symbol, by atomic number, by numpy integer key and
+    # as a formula string; every class of count (0, negative, large, fractional, numpy scalars)
+    fixed = []
+    for z in weighted:
+        fixed.append({'kind': 'sym', 'cls': 'single', 'items': [[z, 1]]})
+        fixed.append({'kind': 'num', 'cls': 'single', 'items': [[z, 3]]})
+        fixed.append({'kind': 'npnum', 'cls': 'single', 'items': [[z, 2]]})
+        fixed.append({'kind': 'formula', 'cls': 'single', 'items': [[z, 2]]})
+    for kind in ('sym', 'num', 'npnum', 'mixed'):
+        fixed.append({'kind': kind, 'cls': 'count:zero', 'items': [[6, 0], [1, 4]]})
+        fixed.append({'kind': kind, 'cls': 'count:neg', 'items': [[8, -1], [1, 2]]})
+        fixed.append({'kind': kind, 'cls': 'count:large', 'items': [[6, 1000], [1, 2002]]})
+        fixed.append({'kind': kind, 'cls': 'count:frac', 'items': [[26, 0.5], [8, 0.75]]})
+        fixed.append({'kind': kind, 'cls': 'count:npi64', 'items': [[6, 2, 'npi64'], [1, 6, 'npi64']]})
+        fixed.append({'kind': kind, 'cls': 'count:npf64', 'items': [[78, 2.5, 'npf64'], [8, 1.0, 'npf64']]})
+    fixed.append({'kind': 'formula', 'cls': 'formula:repeat', 'items': [[6, 1], [1, 3], [6, 1], [1, 2], [8, 1], [1, 1]]})
+    fixed.append({'kind': 'formula', 'cls': 'formula:two-digit', 'items': [[6, 12], [1, 26]]})
+    fixed.append({'kind': 'formula', 'cls': 'formula:zero', 'items': [[6, 1], [1, 0], [8, 2]]})
     for part in range(ctx.pick(1, 12)):
-        comps = []
+        comps = list(fixed) if part == 0 else []
         for k in range(ctx.pick(120, 1000)):
-            kind = ['sym', 'num', 'mixed', 'formula', 'sym'][k % 5]
+            kind = ['sym', 'num', 'mixed', 'formula', 'npnum'][k % 5]
             zs = rnd.sample(weighted, rnd.randint(1, 5))
             if kind == 'formula' and rnd.random() < 0.3:
                 zs = zs + [zs[0]]                       # a repeated element, as in CH3CH3
@@ -551,6 +699,62 @@ def run(ctx):
                 k = ev['kind'] + ('_refused' if ev['raised'] else '_judged')
                 probes[k] = probes.get(k, 0) + 1
     ctx.coverage['array_probes'] = probes
+    # vacuity counters of the argument classes (accepted calls / judged events per class)
+    cov = {'convert_unit_num': {}, 'helper_arg': {}, 'helper_array': {}, 'molar_mass': {},
+           'cross_variants': {}, 'accessor_keyword_calls': 0, 'h_bar_forms': 0, 'module_constants': [],
+           'elements_by_alternate_symbol': 0, 'positional_calls': 0}
+    for _, evs in traces:
+        for ev in evs:
+            k = ev.get('ev')
+            if k in ('matrix', 'temp'):
+                for cl, n in ev['classes'].items():
+                    key = ('temp:' if k == 'temp' else 'prop:') + cl
+                    cov['convert_unit_num'][key] = cov['convert_unit_num'].get(key, 0) + n
+                cov['positional_calls'] += len(ev['units']) ** 2
+            elif k in ('spec', 'inertia', 'debye'):
+                key = k + ':' + ev['cls']
+                cov['helper_arg'][key] = cov['helper_arg'].get(key, 0) + 1
+            elif k == 'helper':
+                key = ev['kind'] + ('_refused' if ev['raised'] else '_judged')
+                cov['helper_array'][key] = cov['helper_array'].get(key, 0) + 1
+            elif k == 'mw':
+                key = ev['kind'] + ':' + ev['cls']
+                cov['molar_mass'][key] = cov['molar_mass'].get(key, 0) + (0 if ev['raised'] else 1)
+            elif k == 'cross':
+                for kk, name in enumerate(ev['variants']):
+                    cov['cross_variants'][name] = cov['cross_variants'].get(name, 0) + len(ev['refused'][kk])
+            elif k in ('R', 'kb', 'h', 'c', 'acc'):
+                cov['accessor_keyword_calls'] += 0 if ev['raised'] else 1
+                if k == 'h' and not ev['raised']:
+                    cov['h_bar_forms'] += 3
+            elif k == 'const':
+                cov['module_constants'].append(ev['name'])
+            elif k == 'element' and ev['z'] in (113, 115, 117, 118) and ev['awZ']['has']:
+                cov['elements_by_alternate_symbol'] += 1
+    ctx.coverage['input_classes'] = cov
+    if ctx.replay_case is None:
+        need = (['prop:' + _argclass(x) for x in NUMS] + ['temp:' + _argclass(x) for x in TEMP_NUMS])
+        missing = [k for k in need if not cov['convert_unit_num'].get(k)]
+        for grp, keys in (('helper_arg', ['spec:f:pos', 'spec:i:pos', 'spec:npf64:pos', 'spec:npi64:pos',
+                                          'spec:npi32:pos', 'spec:f:neg', 'spec:i:neg', 'spec:f:zero',
+                                          'spec:i:zero', 'spec:f:huge', 'spec:f:tiny', 'inertia:i:pos',
+                                          'inertia:f:neg', 'inertia:f:huge', 'debye:i:zero', 'debye:npi64:pos']),
+                          ('helper_array', ['f64_judged', 'i64_judged']),
+                          ('molar_mass', ['sym:single', 'num:single', 'npnum:single', 'formula:single',
+                                          'sym:count:zero', 'num:count:neg', 'mixed:count:large',
+                                          'npnum:count:frac', 'sym:count:npi64', 'num:count:npf64',
+                                          'formula:formula:repeat', 'formula:formula:two-digit',
+                                          'formula:formula:zero', 'formula:random', 'mixed:random']),
+                          ('cross_variants', ['one', 'omitted', 'zero'])):
+            missing += [grp + '/' + k for k in keys if not cov[grp].get(k)]
+        for k in ('accessor_keyword_calls', 'h_bar_forms', 'elements_by_alternate_symbol',
+                  'positional_calls'):
+            if not cov[k]:
+                missing.append(k)
+        if 'e' not in cov['module_constants'] or 'Na' not in cov['module_constants']:
+            missing.append('module_constants')
+        if missing:
+            raise core.MachineryError('input classes never exercised: %s' % missing)
     if ctx.replay_case is None and not any(k.startswith(('f64', 'i64')) for k in probes):
         raise core.MachineryError('no array-valued probe was made: %r' % (probes,))
     fails, stats = core.validate_traces('Trace_Units', 'Trace', traces)
